@@ -1,5 +1,24 @@
 import Driver.Util
 import Driver.C01
+import Driver.C02
+import Driver.C03
+import Driver.C04
+import Driver.C05
+import Driver.C06
+import Driver.C07
+import Driver.C08
+import Driver.C09
+import Driver.C10
+import Driver.C11
+import Driver.C12
+import Driver.C13
+import Driver.C14
+import Driver.C15
+import Driver.C16
+import Driver.C17
+import Driver.C18
+import Driver.C19
+import Driver.C20
 
 /-
   Model driver: reads one operation per line on stdin (`<PROP> <op> <args…>`), runs the
@@ -13,6 +32,25 @@ def dispatch (toks : List String) : String :=
   match toks with
   | _ :: "probe" :: _ => "holds"
   | "C01" :: rest => C01.handle rest
+  | "C02" :: rest => C02.handle rest
+  | "C03" :: rest => C03.handle rest
+  | "C04" :: rest => C04.handle rest
+  | "C05" :: rest => C05.handle rest
+  | "C06" :: rest => C06.handle rest
+  | "C07" :: rest => C07.handle rest
+  | "C08" :: rest => C08.handle rest
+  | "C09" :: rest => C09.handle rest
+  | "C10" :: rest => C10.handle rest
+  | "C11" :: rest => C11.handle rest
+  | "C12" :: rest => C12.handle rest
+  | "C13" :: rest => C13.handle rest
+  | "C14" :: rest => C14.handle rest
+  | "C15" :: rest => C15.handle rest
+  | "C16" :: rest => C16.handle rest
+  | "C17" :: rest => C17.handle rest
+  | "C18" :: rest => C18.handle rest
+  | "C19" :: rest => C19.handle rest
+  | "C20" :: rest => C20.handle rest
   | _ => badOp
 
 partial def loop (h : IO.FS.Stream) (out : IO.FS.Stream) : IO Unit := do
